@@ -135,6 +135,16 @@ CHECKS = {
             "process; continuity at M -> 0 (incl. M = 0 exactly) and rejection of requests whose xi leaves the grid are replayed.",
             "Trusted: TLC, scipy.quad, eko basis functions. g1: only continuity, rejection and (via C14/C16) that its integrals run over "
             "g1 are checked - the normalisation convention of the reference could not be settled from the repository.", "DESIGN.md 7/C10"),
+    "C03": ("exploration",
+            "TLC-enumerated registry of every (kind, process, class, order) kernel (registry completeness model-checked on the assembly "
+            "model) instantiated through the real assembly; loc/sing contract evaluated by quadrature; TLC judges every line",
+            "Whether loc(x) - loc(x0) = -int sing holds for all x is a statement of real analysis: it is sampled (x lattice, adaptive "
+            "quadrature). What the specification contributes is exhaustive: TLC proves that every class the assembly of any lattice cell "
+            "names is in the registry (Inv_Registry), enumerates the 257 (class, order) elements and the 12 splitting labels, and the run "
+            "must reach each of them (or see the real class answer None) through the production call sites for nf 3..6 and several mass "
+            "ratios; TLC takes the verdict per line (residual <= 2e-5 of the scale, all parts finite).",
+            "Trusted: TLC, scipy.quad, the third-party libraries called inside kernels. Tolerance 2e-5 from the published-digit rounding of "
+            "the NNLO/N3LO parametrisations (largest legitimate residual 1.6e-6, seeded defects >= 5e-3).", "DESIGN.md 7/C03"),
 }
 
 PENDING = {}
